@@ -444,9 +444,12 @@ class GraphMLProp(props.BaseProp):
             # the pool + a counter, every kind of weight; decided by the round-trip oracle alone (evaluating the
             # model on thousands of elements inside Coq is slow)
             r2 = gv.SplitMix(seed * 104729 + 14)
-            for k in range(2 if n < 10000 else 12):
+            for k in range(4 if n < 10000 else 12):
                 nn = r2.pick([150, 400, 1500]) if k else 400
-                nm = ["%s%d" % (r2.pick(NAME_POOL), j) for j in range(nn)]
+                # every second one with multi-byte names only: any fixed block size a reader could use (4 KiB, 8 KiB)
+                # then falls inside a character many times over
+                pool = NAME_POOL if k % 2 == 0 else ["日本語", "é", "😀x", "ß", "é<", "日本語😀", "ßé"]
+                nm = ["%s%d" % (r2.pick(pool), j) for j in range(nn)]
                 d = r2.below(2)
                 es = [(nm[j], nm[(j + 1) % nn], None if r2.chance(1, 5) else gen_weight_bits(r2)) for j in range(nn)]
                 es += [(nm[r2.below(nn)], nm[r2.below(nn)], gen_weight_bits(r2)) for _ in range(nn // 3)]
